@@ -88,6 +88,16 @@ class Closure:
         return "<lambda>"
 
 
+class PyFunc:
+    """A library function modelled by a Python function of the check (held in a variable by the code)."""
+
+    def __init__(self, name, fn):
+        self.name, self.fn = name, fn
+
+    def __repr__(self):
+        return "<function %s>" % self.name
+
+
 class BoundMethod:
     """A method of a repo class bound to a class-typed abstract object."""
 
@@ -720,6 +730,16 @@ class Interp:
                 return r
         if isinstance(fn, ast.Name):
             n = fn.id
+            bound = env.get(n)
+            if isinstance(bound, Closure) and not kwargs and len(bound.node.args.args) == len(args):
+                sub = dict(bound.env)
+                for a_, v_ in zip(bound.node.args.args, args):
+                    sub[a_.arg] = v_
+                return self.eval(bound.node.body, sub, bound.func)
+            if isinstance(bound, PyFunc):
+                return bound.fn(*args, **kwargs)
+            if isinstance(bound, BoundMethod):
+                return self.invoke(bound.func, args, kwargs, bound.obj)
             if n in ("any", "all") and args and isinstance(args[0], (list, tuple)):
                 ts = [self.truth(x) for x in args[0]]
                 if n == "any":
